@@ -121,7 +121,7 @@ def check_lookup(mon, rng, ds, prob, dec):
                               f"{kind}: returned {f[r]}, nearest design(s) {ok_rows.tolist()} have {ds.out_data[ok_rows[0]]}",
                               {"x": x2[r], "in_data": ds.in_data, "out_data": ds.out_data})
         # decoupled forms against the logged inner evaluation
-        forms = ["none", "int", "list", "array"]
+        forms = ["none", "int", "list", "array", "tuple"]
         form = str(rng.choice(forms))
         k = len(x2)
         if form == "none":
@@ -130,6 +130,8 @@ def check_lookup(mon, rng, ds, prob, dec):
             ei = int(rng.integers(ds.out_dim))
         elif form == "list":
             ei = [int(v) for v in rng.integers(ds.out_dim, size=k)]
+        elif form == "tuple":
+            ei = tuple(int(v) for v in rng.integers(ds.out_dim, size=k))
         else:
             ei = rng.integers(ds.out_dim, size=k)
         INNER.clear()
